@@ -91,6 +91,15 @@ func Begin(st keyvalue.Store) (keyvalue.Transaction, error) {
 	return keyvalue.TransactionOrSerial(st, keyvalue.TransactionOptions{Mode: keyvalue.TransactionReadWrite})
 }
 
+// BeginMode opens a transaction in the given mode ("ro": read-only, anything else: read-write).
+func BeginMode(st keyvalue.Store, mode string) (keyvalue.Transaction, error) {
+	m := keyvalue.TransactionReadWrite
+	if mode == "ro" {
+		m = keyvalue.TransactionReadOnly
+	}
+	return keyvalue.TransactionOrSerial(st, keyvalue.TransactionOptions{Mode: m})
+}
+
 // Record is the FileRecord stored for model value v.
 func Record(v string) (keyvalue.FileRecord, blob.Blob) {
 	b := blob.NewBytes([]byte(v))
